@@ -12,9 +12,9 @@ CHECKS = {
             "The HTTP/1.1 -> h2c pair and trailers are not exercised; kernel segmentation and epoll wake-up order are shaped, not owned; splice off; three HTTP/2 shapes are known findings (frame storm, head-of-line stall when both peers withhold credit, streams attached before the backend's SETTINGS) excluded by construction with strict reproducers under C14.",
             "DESIGN.md §4 C01"),
     "C02": ("fault_enumeration",
-            "generated fault-scenario search in a wire lab (real worker, scripted HTTP/1.1 client and programmable mock backends) against the admissible answer set per injected cause",
+            "generated fault-scenario search in a wire lab (real worker, scripted HTTP/1.1 and HTTP/2 clients, programmable HTTP/1.1 and h2c mock backends) against the admissible answer set per injected cause",
             "Each scenario is a sequence of requests on one or more client connections through a live worker with two HTTP listeners (default answers; keep-alive answer templates) to clusters that are healthy, missing, refusing, closing at accept, denied or per-IP limited, with an injected cause per request (backend closes without answer / mid-request / cuts head or body / stalls / answers late / garbage / answers before the body ended; client stops mid head or body). Oracle per request: exactly one answer, status in the property's set for the cause, proxy-made answers well-formed, a relayed 200 answers this request with the exact body, after a cut either a sole 502/504 or an abort whose bytes are a prefix of the backend's, time to answer within the governing timeout + 3 s, self-answered requests never reach a backend, the next request and a final probe are served. Failures are re-run twice on a fresh lab.",
-            "HTTP/1.1 client and backend only (no HTTP/2, TLS, 421, connect timeout against a black-holed address); five shapes are known findings excluded by construction with strict reproducers.",
+            "Sub-check h2answers does the same for an HTTP/2 client (TLS, own frame codec): 1..4 streams on one connection, opened together or one after the other, to HTTP/1.1 and h2c backends with a generated cause per stream (routing outcomes 404 / 401 / 421 / 429 / 503; refusing, closing at accept, closing without answer, garbage, cut at a generated offset by FIN or RST, stalls before / inside the response; h2c: RST_STREAM, GOAWAY, close, silence at three points), backend connection reuse and shared h2c connections; per stream exactly one outcome from the client's own frames (complete exact response, proxy answer with a status admissible for the cause, or an explicit abort where a response had started), never END_STREAM on a truncated body, outcomes within the governing timeout, healthy streams unaffected by their neighbours. Not generated: client-side faults on HTTP/2 (408), HTTP/1.1 client -> h2c backend, connect timeout against a black-holed address.",
             "DESIGN.md §4 C02"),
     "C03": ("exploration",
             "grammar-based mutation of valid HTTP/1.1 request streams and of HTTP/2 header lists / frame sequences through a live worker; differential oracle: a strict RFC 9112 reader plus 14 permissive reader variants must agree on what each backend connection received, and it must be what sozu stamped",
